@@ -879,6 +879,18 @@ fn blame_codec(o: &Opts, refs: &Refs, h: &sam::Header, recs: &[RecordBuf]) -> Op
                 continue;
             }
             let p = &file[b.data.0..b.data.1];
+            if enc == "fqz" && p.len() != lens.iter().sum::<usize>() {
+                // ReadBase features put their quality score in the QS series too: the payload is
+                // not the concatenation of the per-record arrays fqzcomp is told about
+                return Some((
+                    "cram-fqzcomp-readbase-qualities-in-qs".into(),
+                    format!(
+                        "QS payload of {} bytes for records whose read lengths sum to {} (fqzcomp::encode(lens, src) needs them equal)",
+                        p.len(),
+                        lens.iter().sum::<usize>()
+                    ),
+                ));
+            }
             if let Err(e) = codec_roundtrip(&enc, p, &lens) {
                 return Some((
                     format!("cram-block-codec-{}", codec_class(&enc)),
@@ -1153,5 +1165,3 @@ fn main() {
     nv::main_with(generate, run)
 }
 
-#[allow(dead_code)]
-fn _unused(_: HashMap<u8, u8>) {}
